@@ -18,7 +18,8 @@ pr = ck.prove() if translator_error is None else None
 
 REPO_SOURCES = ["tlx/string/%s.cpp" % n for n in
                 ("base64", "hexdump", "split", "join", "join_quoted", "split_quoted", "replace", "trim", "to_lower",
-                 "to_upper", "compare_icase", "starts_with", "ends_with", "contains", "erase_all", "pad")]
+                 "to_upper", "compare_icase", "starts_with", "ends_with", "contains", "erase_all", "pad",
+                 "split_view", "equal_icase", "less_icase")]
 
 # ---------------------------------------------------------------- helpers
 def hx(b): return b.hex() if b else "-"
@@ -226,6 +227,54 @@ def gen_cases(thorough):
             b = bytes(b)
         else: b = a.swapcase()
         cs.append("lev %s %s" % (hx(a), hx(b)))
+    # --- regimes added by the API-surface audit -------------------------------------------------------------
+    ALL = bytes(range(256))
+    # base64: long inputs crossing the line-break width several times, widths 4 / 8 / 76 (and 0, 64), lengths around the
+    # 57-byte (= 76 characters) line boundary and around multiples of 3; all 256 byte values
+    for lb in (0, 4, 8, 64, 76):
+        cs.append("b64 %s %d" % (hx(ALL), lb)); cs.append("b64 %s %d" % (hx(ALL[::-1] + ALL[:2]), lb))
+        for n in (56, 57, 58, 113, 114, 115, 171, 172):
+            cs.append("b64 %s %d" % (hx(rbytes(n)), lb))
+    for _ in range(20 * scale):
+        cs.append("b64 %s %d" % (hx(rbytes(180 + rng.below(500))), rng.choice([4, 8, 76, 76, 0])))
+    cs.append("hex %s" % hx(ALL)); cs.append("case %s" % hx(ALL[::-1]))
+    for n in (1, 2, 4, 8, 12):                              # sizes of the hexdump_type<T> instantiations
+        for _ in range(3): cs.append("hex %s" % hx(rbytes(n)))
+    cs.append("b64d %s 0" % hx(ALL)); cs.append("b64d %s 1" % hx(ALL)); cs.append("phex %s" % hx(ALL[:64]))
+    cs.append("era %s %s" % (hx(ALL), hx(ALL[1::2]))); cs.append("trim %s %s" % (hx(ALL + ALL[::-1]), hx(ALL[:100] )))
+    cs.append("repa %s %s %s" % (hx(ALL + ALL), hx(ALL[65:67]), hx(b"\x00\xff"))); cs.append("sw %s %s" % (hx(ALL), hx(ALL[200:])))
+    cs.append("splc 00 %s npos" % hx(ALL + ALL)); cs.append("spls ff00 %s npos" % hx(ALL + ALL + ALL[:1]))
+    cs.append("jq 20 22 5c 3 %s %s %s" % (hx(ALL), hx(ALL[::-1]), hx(ALL[9:14])))
+    cs.append("lev %s %s" % (hx(ALL[:60]), hx(ALL[30:90]))); cs.append("cmp %s %s" % (hx(ALL[1:]), hx(ALL[1:].swapcase())))
+    # split: separators longer than the string, limits 0 / 1 / 2 / npos, strings consisting only of separators
+    for sep in (b",", b"ab", b"aba", b",,"):
+        for k in range(0, 6):
+            only = sep * k
+            for lim in (None, 0, 1, 2):
+                cs.append("spls %s %s %s" % (hx(sep), hx(only), lim_str(lim)))
+                cs.append("spls %s %s %s" % (hx(sep), hx(only + sep[:1]), lim_str(lim)))
+                if len(sep) == 1: cs.append("splc %s %s %s" % (hx(sep), hx(only), lim_str(lim)))
+            cs.append("splsm %s %s %d %s" % (hx(sep), hx(only), k, lim_str(rng.choice([None, 1, 2]))))
+        for s0 in (b"", b"a", b"b", sep[:len(sep) - 1], sep[1:]):      # shorter than the separator
+            for lim in (None, 0, 1, 2):
+                cs.append("spls %s %s %s" % (hx(sep + b"xyz"), hx(s0), lim_str(lim)))
+                cs.append("spls %s %s %s" % (hx(sep), hx(s0), lim_str(lim)))
+    for s0 in all_strings([b"a", b"b"], 4):
+        for lim in (0, 1, 2):
+            cs.append("spls 61 %s %d" % (hx(s0), lim)); cs.append("spls 6162 %s %d" % (hx(s0), lim))
+    for k in range(1, 5):
+        cs.append("joinc 2c %d %s" % (k, " ".join(["-"] * k))); cs.append("joins 2c20 %d %s" % (k, " ".join(["-"] * k)))
+    # trim / erase_all: strings consisting only of drop characters (every overload: string set, single char, default set)
+    for k in range(0, 7):
+        cs.append("trim %s 200d0a09" % hx(b" \t\r\n"[:k % 5] * (1 + k // 2))); cs.append("trim %s 20" % hx(b" " * k))
+        cs.append("trim %s 6162" % hx(b"ab" * k)); cs.append("era %s 20" % hx(b" " * k)); cs.append("era %s 6162" % hx(b"ba" * k))
+        cs.append("pad %s %d 20" % (hx(b"x" * k), 3)); cs.append("pad %s %d 20" % (hx(rbytes(k)), k))
+    # equal_icase / less_icase / compare_icase: equal up to case, proper prefixes, high bytes (NUL-free: const char* overloads run)
+    NN = [b"a", b"A", b"b", b"Z", b"z", b"[", b"@", b"\x80", b"\xc1", b"\xe1", b"\xff", b"1"]
+    for _ in range(150 * scale):
+        a = rbytes(rng.below(7), NN); r = rng.below(4)
+        b = a.swapcase() if r == 0 else a[:rng.below(len(a) + 1)] if r == 1 else a.swapcase() + rbytes(1, NN) if r == 2 else rbytes(rng.below(7), NN)
+        cs.append("cmp %s %s" % (hx(a), hx(b)))
     return cs
 
 # ---------------------------------------------------------------- property oracle on the implementation's line
@@ -238,6 +287,15 @@ def lev_ref(a, b, eq):
         prev = cur
     return prev[len(b)]
 
+def sourcecode_ref(s, name):
+    out = b"const std::uint8_t " + name + b"[" + str(len(s)).encode() + b"] = {\n"
+    for i, c in enumerate(s):
+        out += b"0x%02X" % c
+        if i + 1 < len(s):
+            out += b","
+            if i % 16 == 15: out += b"\n"
+    return out + b"\n};\n"
+
 def py_split(s, sep, lim):
     if lim == 0: return []
     return s.split(sep, -1 if lim is None else lim - 1)
@@ -245,7 +303,7 @@ def py_split(s, sep, lim):
 def lim_of(t): return None if t == "npos" else int(t)
 def sign(x): return (x > 0) - (x < 0)
 
-def oracle(case, impl):
+def oracle(case, impl, extra=None):
     """None if the implementation's result satisfies the property on this case (or the property says nothing), else text"""
     t = case.split(); op = t[0]; f = fields(impl)
     if "!OVERLOAD" in impl: return "overloads of the same function disagree: " + impl[impl.index("!OVERLOAD"):]
@@ -259,6 +317,9 @@ def oracle(case, impl):
         s = unhx(t[1])
         if unhx(f["lc"]) != binascii.hexlify(s) or unhx(f["uc"]) != binascii.hexlify(s).upper(): return "hexdump differs from RFC 4648 base16 / binascii.hexlify"
         if f["puc"] == "EXC" or unhx(f["puc"]) != s or f["plc"] == "EXC" or unhx(f["plc"]) != s: return "parse_hexdump(hexdump(s)) != s"
+        if extra:
+            for key, name in (("src", b"v"), ("srcn", b"name")):
+                if unhx(extra[key]) != sourcecode_ref(s, name): return "hexdump_sourcecode differs from its documented layout (0xHH, 16 per line)"
     elif op in ("splc", "splcm"):
         sep, s = unhx(t[1]), unhx(t[2]); mn = int(t[3]) if op == "splcm" else 0; lim = lim_of(t[-1])
         ref = py_split(s, sep, lim); ref += [b""] * max(0, mn - len(ref))
@@ -308,6 +369,8 @@ def oracle(case, impl):
     elif op == "cmp":
         a, b = unhx(t[1]).lower(), unhx(t[2]).lower()
         if int(impl.split()[0]) != sign((a > b) - (a < b)): return "compare_icase differs from the sign of strcmp on the lower-cased strings"
+        if f["eq"] != ("1" if a == b else "0"): return "equal_icase differs from equality of the lower-cased strings"
+        if f["lt"] != ("1" if a < b else "0"): return "less_icase differs from < on the lower-cased strings (unsigned bytes, consistent with compare_icase)"
     elif op == "era":
         s, d = unhx(t[1]), unhx(t[2]); ref = s.translate(None, d)
         if unhx(f["c"]) != ref or unhx(f["i"]) != ref: return "erase_all differs from removing every occurrence"
@@ -346,6 +409,57 @@ def nontrivial(case, impl):
     if op == "cmp": return t[1] != "-" and t[2] != "-"
     if op == "lev": return t[1] != "-" and t[2] != "-" and t[1] != t[2]
     return True
+
+
+# ---------------------------------------------------------------- API surface (audit): every public entry point of the
+# anchored files and of their siblings; "op" = case kind of harness/C19/string_harness.cpp that calls it
+def _api():
+    T = []
+    def add(fn, sigs, op, note=""):
+        for sg in sigs:
+            T.append({"function": fn, "signature": sg, "called_by_harness": op is not None, "case_kind": op or "-", "note": note})
+    add("base64_encode", ["(const void*, size_t, size_t line_break)", "(string_view, size_t line_break)"], "b64")
+    add("base64_encode", ["(const void*, size_t) [default line_break]", "(string_view) [default line_break]"], "b64", "called when line_break = 0")
+    add("base64_decode", ["(const void*, size_t, bool strict)", "(string_view, bool strict)"], "b64,b64d", "strict = true and false")
+    add("base64_decode", ["(const void*, size_t) [default strict]", "(string_view) [default strict]"], "b64,b64d")
+    add("hexdump", ["(const void*, size_t)", "(string_view)", "(const std::vector<char>&)", "(const std::vector<uint8_t>&)"], "hex")
+    add("hexdump_lc", ["(const void*, size_t)", "(string_view)", "(const std::vector<char>&)", "(const std::vector<uint8_t>&)"], "hex")
+    add("hexdump_type<T> / hexdump_lc_type<T>", ["T = uint8_t, uint16_t, uint32_t, uint64_t, 12-byte struct"], "hex", "when the input has 1/2/4/8/12 bytes")
+    add("hexdump_sourcecode", ["(string_view, string_view var_name)", "(string_view) [default var_name]"], "hex", "judged by the Python oracle only (no Coq model)")
+    add("parse_hexdump", ["(string_view)"], "hex,phex")
+    for ret in ("std::vector<std::string>", "std::vector<std::string>& (into)"):
+        add("split", ["%s (char, string_view, limit)" % ret, "%s (string_view, string_view, limit)" % ret,
+                      "%s (char, string_view, min_fields, limit)" % ret, "%s (string_view, string_view, min_fields, limit)" % ret], "splc,spls,splcm,splsm")
+        add("split", ["%s (char, string_view) [default limit]" % ret, "%s (string_view, string_view) [default limit]" % ret], "splc,spls,joinc,joins", "when limit = npos")
+    for ret in ("std::vector<string_view>", "std::vector<string_view>& (into)"):
+        add("split_view", ["%s (char, string_view, limit)" % ret, "%s (string_view, string_view, limit)" % ret,
+                           "%s (char, string_view, min_fields, limit)" % ret, "%s (string_view, string_view, min_fields, limit)" % ret,
+                           "%s (char, string_view) [default limit]" % ret, "%s (string_view, string_view) [default limit]" % ret], "splc,spls,splcm,splsm",
+            "views materialised after a bounds check and compared with split(); needs fixes/C19/06,07")
+    add("join", ["(char, const std::vector<std::string>&)", "(const char*, const std::vector<std::string>&)", "(string_view, const std::vector<std::string>&)"], "joinc,joins", "const char* on NUL-free glue")
+    add("join (join_generic.hpp)", ["<Glue, Iterator>(glue, first, last) with Glue = char / string_view / std::string / const char*, list and vector iterators",
+                                    "<Container>(char, const Container&) with std::list, std::deque", "<Container>(string_view, const Container&) with std::list, std::deque"], "joinc,joins")
+    add("join_quoted", ["(const std::vector<std::string>&, char sep, char quote, char escape)", "(const std::vector<std::string>&) [defaults]"], "jq")
+    add("split_quoted", ["(string_view, char sep, char quote, char escape)", "(string_view) [defaults]"], "jq,sq")
+    add("replace_first", ["(std::string*, string_view, string_view)", "(std::string*, char, char)", "(string_view, string_view, string_view)", "(string_view, char, char)"], "rep1,rep1c")
+    add("replace_all", ["(std::string*, string_view, string_view)", "(std::string*, char, char)", "(string_view, string_view, string_view)", "(string_view, char, char)"], "repa,repac")
+    for fn in ("trim", "trim_left", "trim_right"):
+        add(fn, ["(std::string*)", "(std::string*, string_view drop)", "(std::string*, char drop)", "(string_view*)", "(string_view*, string_view drop)",
+                 "(string_view*, char drop)", "(string_view)", "(string_view, string_view drop)", "(string_view, char drop)"], "trim", "char overloads when |drop| = 1, default overloads when drop = \" \\r\\n\\t\"")
+    add("starts_with / starts_with_icase", ["(string_view, string_view)"], "sw")
+    add("ends_with / ends_with_icase", ["(const char*, const char*)", "(const char*, string_view)", "(string_view, const char*)", "(string_view, string_view)"], "sw", "const char* on NUL-free inputs")
+    add("contains", ["(string_view, string_view)", "(string_view, char)"], "sw")
+    add("to_lower / to_upper", ["(char)", "(std::string*)", "(string_view)"], "case")
+    add("compare_icase", ["(const char*, const char*)", "(const char*, string_view)", "(string_view, const char*)", "(string_view, string_view)"], "cmp", "const char* on NUL-free inputs")
+    add("equal_icase", ["(const char*, const char*)", "(const char*, string_view)", "(string_view, const char*)", "(string_view, string_view)"], "cmp", "needs fixes/C19/08")
+    add("less_icase", ["(const char*, const char*)", "(const char*, string_view)", "(string_view, const char*)", "(string_view, string_view)", "less_icase_asc::operator()", "less_icase_desc::operator()"], "cmp", "needs fixes/C19/09")
+    add("erase_all", ["(std::string*, char)", "(std::string*) [default drop]", "(std::string*, string_view)", "(string_view, char)", "(string_view) [default drop]", "(string_view, string_view)"], "era")
+    add("pad", ["(string_view, size_t, char)", "(string_view, size_t) [default pad_char]"], "pad")
+    add("levenshtein / levenshtein_icase", ["(const char*, const char*)", "(string_view, string_view)"], "lev", "const char* on NUL-free inputs")
+    add("levenshtein_algorithm<Param>", ["custom Param (other costs / char_equal)"], None, "only the two shipped parameter structs are instantiated; the Coq theorem is parametric in char_equal, costs are fixed to 1")
+    add("split_words / split_view-based helpers, escape_*, format_*, parse_*, word_wrap, ...", ["(other tlx/string files)"], None, "not named by the property")
+    return T
+API_SURFACE = _api()
 
 # ---------------------------------------------------------------- run
 corpus = [l.strip() for l in open(os.path.join(verif.VERIF, "corpus", "C19", "cases.txt")) if l.strip() and not l.startswith("#")]
@@ -392,12 +506,13 @@ if impl is not None:
         #  reported through the property oracle below / ck.proof_broken, not as a driver problem)
         ck.violation("extracted model/driver does not build", {"correspondence": "ocaml/C19_driver.ml", "log": dlog[-2000:]}, no_input=True)
     for idx, c in enumerate(cases):
-        a = impl[idx].strip() if idx < len(impl) else "<missing>"
+        a_full = impl[idx].strip() if idx < len(impl) else "<missing>"
+        a, _, pyonly = a_full.partition(" ## ")        # " ## ..." = results judged by the Python oracle only (no Coq model)
         op = c.split()[0]; stats[op] = stats.get(op, 0) + 1
         if nontrivial(c, a): distinct.add(c)
         why = None
         try:
-            why = oracle(c, a)
+            why = oracle(c, a, fields(pyonly))
         except Exception as e:                      # malformed line = harness trouble, not a verdict
             why = "unreadable implementation result (%s): %s" % (e, a[:80])
         if why is not None:
@@ -438,12 +553,15 @@ ck.finish({
     "rule": "one case = one call group (e.g. encode + both decodes; join + split; all overloads of a helper) on the real functions under ASan/UBSan and on the extracted Coq model, compared line by line; the implementation's line is additionally judged by Python's base64/binascii/bytes methods (property oracle). non-trivial = non-empty input for codecs, >= 2 fields for split/join, result different from the input for the rewriting helpers, a positive answer for the predicates, two different non-empty strings for compare/levenshtein; distinct = distinct case text among those.",
     "samples": samples,
     "input_distribution": stats,
+    "api_surface": API_SURFACE,
+    "api_surface_summary": "%d signatures listed, %d called by the harness" % (len(API_SURFACE), sum(1 for x in API_SURFACE if x["called_by_harness"])),
     "tables_translated": ["enc64[64]", "dec64[256]", "xdigits_uc[16]", "xdigits_lc[16]", "hexparse_hi[22]", "hexparse_lo[22]"],
 }, assumptions=[
     "translator: regex/brace parse of the encoding64/decoding64/xdigits tables and the two switch statements of parse_hexdump",
     "std::string::find / find_first_not_of / find_last_not_of / std::search / std::equal modelled by their specification",
     "char is signed 8-bit, int/unsigned are 32-bit (to_lower / to_upper arithmetic)",
     "const char* overloads are exercised on NUL-free inputs only; string_view overloads on all byte strings",
+    "every applicable overload / default-argument form is called on each case and must agree with the modelled one (flag !OVERLOAD); split_view results are compared with split after a bounds check of every view; hexdump_sourcecode is judged by the Python oracle only",
     "Python base64 / binascii / bytes.split / replace / strip / lower as the oracle for the documented semantics",
     "extraction: ExtrOcamlBasic only; N/nat/Z/list stay Coq inductives",
 ])
